@@ -185,7 +185,7 @@ pub fn outline(c: &mut Chooser, task: &ExternalTask) -> Vec<Entry> {
     entries
 }
 
-const DEFECTS: [&str; 11] = [
+const DEFECTS: [&str; 12] = [
     "none",
     "not-an-equivalence",
     "lhs-not-an-atom",
@@ -197,6 +197,7 @@ const DEFECTS: [&str; 11] = [
     "predicate-defined-earlier",
     "rhs-predicate-not-yet-defined",
     "predicate-of-the-task-after-renaming",
+    "predicate-mentioned-by-earlier-lemma",
 ];
 
 /// a definition with exactly one defect (the rest of the outline stays valid)
@@ -311,7 +312,7 @@ impl Check for C13 {
         (
             gt::choices(170),
             gt::choices(80),
-            prop_oneof![2 => Just(0u8), 1 => 1u8..11],
+            prop_oneof![2 => Just(0u8), 1 => 1u8..12],
             gt::choices(40),
         )
             .prop_map(|(task, outline, defect, interp)| Case { task, outline, defect, interp })
@@ -353,6 +354,22 @@ impl Check for C13 {
                 // the defective definition carries any direction annotation (decided without consuming a choice)
     let direction = [fol::Direction::Universal, fol::Direction::Universal, fol::Direction::Forward, fol::Direction::Backward][c.aux(31, 4)];
     gt::annotated(fol::Role::Definition, direction, "baddef", f)
+            } else if defect == "predicate-mentioned-by-earlier-lemma" {
+                // a lemma talks about `bad/1`, a later (otherwise well-formed) definition defines it
+                let inp = task.names.inputs[0].0.clone();
+                let lemma = g::quant(
+                    true,
+                    vec![v("X", fol::Sort::General)],
+                    g::bin(fol::BinaryConnective::Implication, atom("bad", vec![gv("X")]), atom("bad", vec![gv("X")])),
+                );
+                let ldir = [fol::Direction::Universal, fol::Direction::Forward, fol::Direction::Backward][oc.aux(32, 3)];
+                entries.push(Entry { formula: gt::annotated(fol::Role::Lemma, ldir, "about_bad", lemma), kind: "lemma", defined: None });
+                let def = g::quant(
+                    true,
+                    vec![v("X", fol::Sort::General)],
+                    g::bin(fol::BinaryConnective::Equivalence, atom("bad", vec![gv("X")]), atom(&inp, vec![gv("X")])),
+                );
+                gt::annotated(fol::Role::Definition, fol::Direction::Universal, "baddef", def)
             } else {
                 defective_definition(&mut oc, &task, defect, &earlier)
             };
